@@ -655,6 +655,7 @@ int tls13_process_client_hello_exts(const uint8_t *exts, size_t extslen,
 	uint8_t *server_exts, size_t *server_exts_len, size_t server_exts_maxlen)
 {
 	size_t len = 0;
+	int key_share = 0;
 	*server_exts_len = 0;
 
 	while (extslen) {
@@ -705,11 +706,16 @@ int tls13_process_client_hello_exts(const uint8_t *exts, size_t extslen,
 				error_print();
 				return -1;
 			}
+			key_share = 1;
 			break;
 
 		default:
 			; // server ignore unkonwn extensions
 		}
+	}
+	if (!key_share) {
+		error_print();
+		return -1;
 	}
 
 	return 1;
